@@ -21,6 +21,11 @@ DEN = 8
 
 # ------------------------------------------------------------------------------------------ model generator
 def rnd_coef(rng, zero_ok=True):
+    # badly scaled rows are part of the stream (seed C01-9: rows "equilibrated" when a coefficient exceeds 1e3 and
+    # their multipliers never scaled back): numerators up to 2^17 over 8, i.e. coefficients up to 16384, and tiny
+    # ones (1/8 next to them), all exactly representable
+    if rng.random() < 0.06:
+        return rng.choice([1 << 13, -(1 << 14), 3 << 13, 1 << 17, -(5 << 12)])
     while True:
         c = rng.choice([-16, -12, -8, -5, -4, -3, -2, -1, 0, 1, 2, 3, 4, 6, 8, 8, 12, 16])
         if c or (zero_ok and rng.random() < 0.5):
